@@ -57,8 +57,15 @@ type Scenario struct {
 	// negotiation, before Ready) | update-ready (UpdateAddr on the Ready session:
 	// documented to have no effect) | bind (a real BindResource negotiation in
 	// which the server assigns NewLocal; initiated c2s only).
-	Addr     string   `json:"addr,omitempty"`
-	NewLocal string   `json:"new_local,omitempty"`
+	Addr     string `json:"addr,omitempty"`
+	NewLocal string `json:"new_local,omitempty"`
+	// AppClose: the application calls Session.Close while the peer keeps
+	// sending: "" (never) | before (before Serve starts) | in-handler
+	// (synchronously at the start of invocation CloseAt, when the serve loop does
+	// not hold the output lock yet) | goroutine (on its own goroutine started at
+	// the start of invocation CloseAt: it lands whenever the output lock is free).
+	AppClose string   `json:"app_close,omitempty"`
+	CloseAt  int      `json:"close_at,omitempty"`
 	Items    []string `json:"items"`            // raw pieces of the peer's input, in order; the input ends with EOF
 	Chunks   []int    `json:"chunks,omitempty"` // read sizes handed to the library, cycled; empty = unlimited
 	Programs []Prog   `json:"programs"`         // invocation i runs Programs[i mod len]
@@ -490,6 +497,10 @@ func generate(r *rand.Rand) Scenario {
 	for i, m := 0, 1+r.Intn(4); i < m; i++ {
 		sc.Programs = append(sc.Programs, genProg(r))
 	}
+	if r.Intn(8) == 0 {
+		sc.AppClose = pick(r, "before", "in-handler", "in-handler", "goroutine")
+		sc.CloseAt = r.Intn(3)
+	}
 	return sc
 }
 
@@ -642,6 +653,24 @@ type recorder struct {
 	sc       Scenario
 	invs     []*invocation
 	progress atomic.Int64
+	s        *xmpp.Session
+	closedAt int           // invocation index from which the output stream is (being) closed; -1 = never
+	closeRet chan struct{} // closed when an asynchronous Session.Close has returned
+}
+
+// appClose is the application calling Session.Close.
+func (rc *recorder) appClose(i int, async bool) {
+	rc.closedAt = i
+	if !async {
+		rc.s.Close()
+		return
+	}
+	rc.closeRet = make(chan struct{})
+	go func() {
+		defer close(rc.closeRet)
+		rc.s.Close()
+		rc.progress.Add(1)
+	}()
 }
 
 func (rc *recorder) HandleXMPP(rw xmlstream.TokenReadEncoder, start *xml.StartElement) error {
@@ -650,6 +679,14 @@ func (rc *recorder) HandleXMPP(rw xmlstream.TokenReadEncoder, start *xml.StartEl
 	inv := &invocation{Start: start.Copy()}
 	rc.invs = append(rc.invs, inv)
 	rc.progress.Add(1)
+	if rc.closedAt < 0 && i == rc.sc.CloseAt {
+		switch rc.sc.AppClose {
+		case "in-handler":
+			rc.appClose(i, false)
+		case "goroutine":
+			rc.appClose(i, true)
+		}
+	}
 	var last error
 	read := func() error {
 		rc.progress.Add(1)
@@ -907,7 +944,10 @@ func Run(c *core.Case, sc Scenario) {
 		}
 	}
 	ref := parseRef(sess.Header(o), input)
-	rec := &recorder{sc: sc}
+	rec := &recorder{sc: sc, s: ev.S, closedAt: -1}
+	if sc.AppClose == "before" {
+		rec.appClose(0, false)
+	}
 	if len(sc.Chunks) > 0 {
 		k := 0
 		ev.Lib.SetChunker(func(avail int) int {
@@ -965,6 +1005,13 @@ func Run(c *core.Case, sc Scenario) {
 	}
 	if panicked {
 		return
+	}
+	if rec.closeRet != nil && !stall.WaitDone(rec.closeRet, 20*time.Second) {
+		c.Inconclusive("Session.Close, called on its own goroutine during invocation %d, did not return although Serve did", rec.closedAt)
+		return
+	}
+	if sc.AppClose != "" && rec.closedAt >= 0 {
+		c.Count("app_close_"+sc.AppClose, 1)
 	}
 	c.Count("streams", 1)
 	c.Count("terminator_"+termKey(ref), 1)
@@ -1150,14 +1197,23 @@ func Run(c *core.Case, sc Scenario) {
 				}
 			}
 		}
-		_ = sawEOF
+		if rec.closedAt >= 0 && i >= rec.closedAt {
+			c.Count("invocations_after_app_close", 1)
+			t := attrsOf(e.Start)[xml.Name{Local: "type"}]
+			writes := prog.Write != "none" || (e.Start.Name.Local == "iq" && (t == "get" || t == "set"))
+			if writes && !sawEOF && i+1 < expected {
+				// what C08-7 style defects need: a write is attempted on the closed
+				// output stream and the element is left partly unread, with more to come
+				c.Count("unfinished_element_with_write_after_app_close", 1)
+			}
+		}
 		if pos > 0 && pos < len(exp) {
 			c.Count("elements_partly_read", 1)
 		}
 		if len(inv.Reads) == 0 {
 			c.Count("elements_not_read", 1)
 		}
-		c.Sig("%s|%s|r=%s|w=%s|ret=%s|el=%s|partial=%v|out=%s", termKey(ref), ns, prog.Read, prog.Write, prog.Ret, elemClass(e, ns), e.Partial, outcomeClass)
+		c.Sig("%s|%s|r=%s|w=%s|ret=%s|el=%s|partial=%v|out=%s|closed=%v", termKey(ref), ns, prog.Read, prog.Write, prog.Ret, elemClass(e, ns), e.Partial, outcomeClass, rec.closedAt >= 0 && i >= rec.closedAt)
 	}
 	if len(rec.invs) == 0 {
 		c.Sig("%s|%s|no-invocation|out=%s", termKey(ref), ns, outcomeClass)
@@ -1184,6 +1240,9 @@ func Run(c *core.Case, sc Scenario) {
 	switch {
 	case ref.Term == "closing":
 		c.Count("outcome_closing_tag", 1)
+		if rec.closedAt >= 0 {
+			c.Count("outcome_closing_tag_after_app_close", 1)
+		}
 		if serveErr != nil {
 			c.Violate("elem:outcome:closing", "the peer's closing tag ended the stream but Serve returned %v", serveErr)
 		}
@@ -1288,7 +1347,7 @@ func Prop() *core.Prop {
 	return &core.Prop{
 		ID:    "C08",
 		Level: core.Exploration,
-		Rule:  "a case is one pre-loaded input stream: 0-4 PRNG element trees (stanzas and others, depth <= 4, stanza-named children, text/CDATA/entities; every start tag and text run carries the index of its top-level element), white-space keep-alives, one terminator out of {closing tag, stream error, restart, other stream-namespace element, comment, PI, directive, non-white text, malformed XML, bare EOF} at the top level or nested in an element, an optional trailer, then EOF; client and server namespaces, initiated and received sessions, PRNG read chunking. Serve runs single-threaded with recording handler programs (read none / k tokens / all / past EOF / swallow read errors; write nothing / an element / split / unclosed / a token the encoder refuses (end tag without start, comment containing the comment terminator, nameless start tag, xmlstream.Copy(rw, rw) without the start); return nil / the error read / an own error / the write error). Serve runs on its own goroutine; when it does not return the quiescent-stall rule decides. 15% of the sessions have their local address changed first (UpdateAddr during negotiation, UpdateAddr on the Ready session, a real BindResource negotiation with a server-assigned address); the from rule is judged against the address LocalAddr reports when the stanzas arrive, with stanzas from the former and the new bare and full addresses. The reference is an independent encoding/xml pass over the same bytes. Distinct = distinct (terminator, namespace, program, element class, outcome).",
+		Rule:  "a case is one pre-loaded input stream: 0-4 PRNG element trees (stanzas and others, depth <= 4, stanza-named children, text/CDATA/entities; every start tag and text run carries the index of its top-level element), white-space keep-alives, one terminator out of {closing tag, stream error, restart, other stream-namespace element, comment, PI, directive, non-white text, malformed XML, bare EOF} at the top level or nested in an element, an optional trailer, then EOF; client and server namespaces, initiated and received sessions, PRNG read chunking. Serve runs single-threaded with recording handler programs (read none / k tokens / all / past EOF / swallow read errors; write nothing / an element / split / unclosed / a token the encoder refuses (end tag without start, comment containing the comment terminator, nameless start tag, xmlstream.Copy(rw, rw) without the start); return nil / the error read / an own error / the write error). Serve runs on its own goroutine; when it does not return the quiescent-stall rule decides. On one session in 8 the application calls Session.Close (before Serve, synchronously at the start of a PRNG-chosen invocation, or on its own goroutine) while the peer keeps sending: the per-element rule and the outcome rule are unchanged. 15% of the sessions have their local address changed first (UpdateAddr during negotiation, UpdateAddr on the Ready session, a real BindResource negotiation with a server-assigned address); the from rule is judged against the address LocalAddr reports when the stanzas arrive, with stanzas from the former and the new bare and full addresses. The reference is an independent encoding/xml pass over the same bytes. Distinct = distinct (terminator, namespace, program, element class, outcome).",
 		Assumptions: []string{
 			"whether the end tag is delivered to the handler, the outcome for a bare EOF and the exact error values are not demanded",
 			"a comment, PI, directive or stream-namespace element nested in an element is a stream-level construct in the sense of the statement (quantifier: at any nesting depth): it must not be delivered as a token and Serve must end with an error",
@@ -1305,6 +1364,8 @@ func Prop() *core.Prop {
 			"invocations", "stanzas_dispatched", "non_stanzas_dispatched", "from_blanked_expected", "non_stanza_with_own_from",
 			"elements_read_to_eof", "elements_partly_read", "elements_not_read", "reads_after_eof", "reads_after_error",
 			"nested_construct_surfaced_as_read_error", "chunked_streams",
+			"app_close_before", "app_close_in-handler", "app_close_goroutine", "invocations_after_app_close",
+			"unfinished_element_with_write_after_app_close", "outcome_closing_tag_after_app_close",
 			"addr_update_neg", "addr_update_ready", "addr_bind", "bare_address_changed_before_serve",
 			"from_blanked_expected_after_addr_change", "former_bare_from_after_addr_change",
 			"refused_writes", "refused_write_refused-end", "refused_write_refused-comment", "refused_write_refused-nameless", "refused_write_echo",
